@@ -75,6 +75,10 @@ func (h *Handler6) spoofLoop(dstAddr packet.Addr) {
 			return
 		}
 
+		// ProcessPacket replaces closeChan under the lock: read it here, not in the select below.
+		// If it is replaced before the select, this is the channel that was closed.
+		wakeup := h.closeChan
+
 		// Attack when we have the router LLA only
 		if h.Router != nil {
 			list := []packet.Addr{}
@@ -127,7 +131,7 @@ func (h *Handler6) spoofLoop(dstAddr packet.Addr) {
 		}
 
 		select {
-		case <-h.closeChan:
+		case <-wakeup:
 			// icmp6 spoof goroutines wait on this channel to receive
 			// notifications of new Router Advertisements send by the lan router.
 			//
